@@ -296,7 +296,9 @@ def analyse_absent(repo: Repo, run: Run, interp) -> None:
     want_call = T("call", (T("sub", (T("attr", (SELF, "handlers")), name)), (SELF, evs), ()))
     rets = [x for x in r.returns if x.kind == "return"]
     nonnull = [x for x in rets if x.value != const(None)]
-    ok = len(nonnull) == 1 and nonnull[0].value == want_call
+    H = T("attr", (SELF, "handlers"))
+    alt_calls = [T("call", (T("call", (T("attr", (H, "get")), (name,) + d, ())), (SELF, evs), ())) for d in ((), (const(None),))]
+    ok = len(nonnull) == 1 and (nonnull[0].value == want_call or nonnull[0].value in alt_calls)
     run.ob("R3", tp.module.name, "TracesParser.parse_event_list", "decoder selected by the table's name", ok,
            "" if ok else "parse_event_list does not return handlers[trace_codes[first.eventid]](self, events): "
                          + ", ".join(sym.pretty(x.value)[:80] for x in nonnull), line=pel.lineno,
@@ -306,6 +308,9 @@ def analyse_absent(repo: Repo, run: Run, interp) -> None:
         pcs = {norm_bool(c)[0]: (norm_bool(c)[1] == v) for c, v in nonnull[0].pc}
         g1 = pcs.get(T("cmp", ("in", first_id, tc)))
         g2 = pcs.get(T("cmp", ("in", name, T("attr", (SELF, "handlers")))))
+        if g2 is None and nonnull[0].value in alt_calls:
+            # `.get` form: the looked-up decoder itself is tested for None
+            g2 = pcs.get(T("cmp", ("is", nonnull[0].value.a[0], const(None)))) is False
         run.ob("R3", tp.module.name, "TracesParser.parse_event_list", "absent id / undecoded name -> no trace", g1 is True and g2 is True,
                "the decoder call is not guarded by both `id in trace_codes` and `name in handlers`; an id absent from the "
                "supplied table raises or is decoded", line=pel.lineno)
